@@ -6,9 +6,10 @@ Line-protocol driver for C03 (op grammar: harness/hx-c03/src/bin/c03.rs).
 
 Types and values travel in a prefix encoding, one token per word:
 
-  ty  ::= t | u | h <tag> <n> aty^n ty | p <n> ty^n | o ty | e <n> ty^n | v ty | a
+  ty  ::= t | ts | tw | ta | u | h <tag> <n> aty^n ty | p <n> ty^n | o ty | e <n> ty^n | v ty | a
+        | r <n> ty        (t = String, ts = &'static str, tw = Cow<'static,str>, ta = Arc<str>; r = [T; n])
   aty ::= s:<name> | os:<name> | b:<name> | c | oc | tc | y | py | opy
-  val(t) = <hex>            val(u) = u             val(p ..) = the component values in order
+  val(t*) = <hex> | <hexbuf>:<start>:<len>   val(r n ty) = val^n   val(u) = u             val(p ..) = the component values in order
   val(o ty) = n | s val     val(e ..) = <i> val    val(v ty) = <n> val^n      val(a) = ty val
   val(h ..) = the attribute values in order, then the child value (`u` for a void element)
   attribute values: s, c, y: <hex>; os, oc: n | s <hex>; b: 0|1; tc: <hex name> 0|1;
@@ -23,6 +24,19 @@ open Leptos Leptos.Wire Leptos.Dom Leptos.View
 def strOfHex (h : String) : Option String := do
   let bs ← bytesOfHex h
   String.fromUTF8? (ByteArray.mk (bs.map UInt8.ofNat).toArray)
+
+/-- a text value: `<hex>` or `<hexbuf>:<start>:<len>` (the bytes `start .. start+len` of the
+buffer; the harness makes such values slices of ONE allocation — the model only sees contents) -/
+def textOfTok (h : String) : Option String :=
+  match h.splitOn ":" with
+  | [b, st, ln] => do
+    let bs ← bytesOfHex b
+    let st ← st.toNat?
+    let ln ← ln.toNat?
+    if st + ln > bs.length then none
+    String.fromUTF8? (ByteArray.mk (((bs.drop st).take ln).map UInt8.ofNat).toArray)
+  | [_] => strOfHex h
+  | _ => none
 
 def hexOfStr (s : String) : String := hexOfBytes (s.toUTF8.toList.map (·.toNat))
 
@@ -57,6 +71,15 @@ def parseTy : Nat → P Ty
   | f + 1, toks =>
     match toks with
     | "t" :: r => some (.text, r)
+    -- text children of other string types (`&'static str`, `Cow<'static, str>`, `Arc<str>`): the
+    -- model has one text type, a rebuild may depend on the contents only
+    | "ts" :: r => some (.text, r)
+    | "tw" :: r => some (.text, r)
+    | "ta" :: r => some (.text, r)
+    | "r" :: n :: r => do
+      let n ← n.toNat?
+      let (t, r) ← parseTy f r
+      pure (.arr n t, r)
     | "u" :: r => some (.unit, r)
     | "a" :: r => some (.any, r)
     | "h" :: tag :: n :: r => do
@@ -123,7 +146,10 @@ def parseVal : Nat → Ty → P View
   | 0, _, _ => none
   | f + 1, ty, toks =>
     match ty, toks with
-    | .text, h :: r => (strOfHex h).map fun s => (.text s, r)
+    | .text, h :: r => (textOfTok h).map fun s => (.text s, r)
+    | .arr n t, r => do
+      let (vs, r) ← parseN (parseVal f t) n r
+      pure (.tuple vs, r)
     | .unit, "u" :: r => some (.unit, r)
     | .elem tag ats ct, r => do
       let (as, r) ← pAttrVals ats r
@@ -211,6 +237,8 @@ structure St where
   /-- failure classes the history of values falls into (known-finding predicates) -/
   classes : List String := []
   prev : Option View := none
+  /-- a Rust panic happened (`Rndr::mount_before` on a state that is not in the DOM): the case is over -/
+  dead : Bool := false
 
 def mkSibling (d : Dom) (root : Id) (c : Char) : Option (Dom × Id) :=
   if c = 't' then
@@ -255,7 +283,8 @@ def freshNorm (s : St) (v : View) : Option String := do
 /-! known-finding classes: sticky flags over the values of the case (predicates of Model/View) -/
 
 def shapeFlags (v : View) : List String :=
-  (if v.anyElem dupItem then ["dup-item"] else [])
+  (if v.nodelessBranch then ["nodeless-old-branch"] else [])
+  ++ (if v.anyElem dupItem then ["dup-item"] else [])
   ++ (if v.anyElem classOverwrite then ["class-overwrite"] else [])
   ++ (if v.anyElem styleOverwrite then ["style-overwrite"] else [])
 
@@ -267,7 +296,7 @@ def addFlags (s : St) (v : View) : St :=
   { s with classes := s.classes ++ fl.filter (fun f => !s.classes.contains f), prev := some v }
 
 def classOrder : List String :=
-  ["dup-item", "class-overwrite", "style-overwrite"]
+  ["nodeless-old-branch", "dup-item", "class-overwrite", "style-overwrite"]
 
 def verdict (s : St) (v : View) : String :=
   match regionNorm s, freshNorm s v with
@@ -280,7 +309,14 @@ def verdict (s : St) (v : View) : String :=
       | [] => "fail not-fresh"
   | _, _ => "fail unserialisable"
 
+def failClass (s : St) (dflt : String) : String :=
+  match classOrder.filter s.classes.contains with
+  | c :: _ => "fail " ++ c
+  | [] => "fail " ++ dflt
+
 def emit (s : St) (v : Option View) : St × String :=
+  if s.dom.errs.any (·.startsWith "panic") then
+    ({ s with dead := true }, "panic ## " ++ failClass s "panic") else
   let (o, nm) := showKids s.dom s.names s.root
   let s := { s with names := nm }
   match v with
@@ -288,6 +324,7 @@ def emit (s : St) (v : Option View) : St × String :=
   | none => (s, o)
 
 def step (s : St) (line : String) : St × String :=
+  if s.dead && (words line).head? != some "case" then (s, "dead ## " ++ failClass s "panic") else
   match words line with
   | ["case", n] => ({}, s!"case {n}")
   | ["init", pre, post] =>
@@ -305,7 +342,7 @@ def step (s : St) (line : String) : St × String :=
     | none, some (ty, r) =>
       match parseVal (rest.length + 4096) ty r with
       | some (v, []) =>
-        if !(decide (HasTy v ty)) then (s, "bad-op") else
+        if !(ty.shapeOk && hasShape v ty) then (s, "bad-op") else
         let (d, st) := build v s.dom
         let d := mount st d s.root s.post.head?
         emit (addFlags { s with dom := d, ty := some ty, st := some st } v) (some v)
@@ -316,7 +353,7 @@ def step (s : St) (line : String) : St × String :=
     | some st, some ty =>
       match parseVal (rest.length + 4096) ty rest with
       | some (v, []) =>
-        if !(decide (HasTy v ty)) then (s, "bad-op") else
+        if !(ty.shapeOk && hasShape v ty) then (s, "bad-op") else
         let (d, st) := rebuild false v st s.dom
         emit (addFlags { s with dom := d, st := some st } v) (some v)
       | _ => (s, "bad-op")
